@@ -32,7 +32,7 @@ pub struct JobOutcome {
 pub trait JobT: Send + Sync {
     fn label(&self) -> String;
     fn system(&self) -> &'static str;
-    fn run(&self, threads: usize) -> JobOutcome;
+    fn run(&self, threads: usize, site_kinds: &std::collections::HashSet<String>) -> JobOutcome;
     /// re-execute one abstract history with this job's oracles; returns (text report, failures)
     fn replay(&self, abs: &[Abs]) -> (String, Vec<Failure>);
 }
@@ -142,7 +142,10 @@ pub fn canon_key<Y: Sys>(abs: &[Abs]) -> String {
     if n == 0 {
         return "[]".into();
     }
-    let nact = abs.iter().map(|a| a.author as usize + 1).max().unwrap();
+    let mut acts: Vec<u8> = abs.iter().map(|a| a.author).collect();
+    acts.sort();
+    acts.dedup();
+    let nact = acts.len();
     let mut keys: Vec<u8> = vec![];
     let mut mems: Vec<u8> = vec![];
     for a in abs {
@@ -183,12 +186,13 @@ pub fn canon_key<Y: Sys>(abs: &[Abs]) -> String {
                         let (cx, cy) = Y::classes(a.cmd);
                         let ren = |cl: Class, v: u8| -> u8 {
                             match cl {
-                                Class::Key => keys[kp[keys.iter().position(|k| *k == v).unwrap()]],
-                                Class::Member => mems[mp[mems.iter().position(|k| *k == v).unwrap()]],
+                                // present names are mapped onto 0..k-1 (every bijection is tried)
+                                Class::Key => kp[keys.iter().position(|k| *k == v).unwrap()] as u8,
+                                Class::Member => mp[mems.iter().position(|k| *k == v).unwrap()] as u8,
                                 Class::None => v,
                             }
                         };
-                        enc.push_str(&format!("a{}:{}.{}.{}:v{:x}:{};", ap[a.author as usize], a.cmd.k, ren(cx, a.cmd.x), ren(cy, a.cmd.y), vis, a.variant));
+                        enc.push_str(&format!("a{}:{}.{}.{}:v{:x}:{};", ap[acts.iter().position(|x| *x == a.author).unwrap()], a.cmd.k, ren(cx, a.cmd.x), ren(cy, a.cmd.y), vis, a.variant));
                     }
                     if best.as_ref().map_or(true, |b| enc < *b) {
                         best = Some(enc);
@@ -244,13 +248,13 @@ impl<Y: Sys> JobT for Job<Y> {
     fn system(&self) -> &'static str {
         Y::NAME
     }
-    fn run(&self, threads: usize) -> JobOutcome {
+    fn run(&self, threads: usize, site_kinds: &std::collections::HashSet<String>) -> JobOutcome {
         let t0 = std::time::Instant::now();
-        let res = explore::<Y>(&self.cfg, self.visitor.as_ref(), threads);
+        let res = explore::<Y>(&self.cfg, self.visitor.as_ref(), threads, site_kinds);
         let mut cache = HashMap::new();
         let mut cores_memo = HashMap::new();
         let mut by_core: BTreeMap<(String, String), CoreFailure> = BTreeMap::new();
-        let failing = res.sink.failures.len() as u64;
+        let failing = res.sink.failures.len() as u64 + res.sink.site_counts.values().map(|v| v.0).sum::<u64>();
         for f in res.sink.failures.iter() {
             let core = self.core_of(&f.hist, &f.kind, &mut cache, &mut cores_memo);
             let key = canon_key::<Y>(&core);
@@ -264,6 +268,9 @@ impl<Y: Sys> JobT for Job<Y> {
                 histories: 0,
             });
             e.histories += 1;
+        }
+        for (kind, (n, f)) in res.sink.site_counts.iter() {
+            by_core.insert((kind.clone(), "*".to_string()), CoreFailure { kind: kind.clone(), core_key: "*".into(), core_text: show_hist::<Y>(&f.hist), core: f.hist.clone(), example: f.clone(), example_text: show_hist::<Y>(&f.hist), histories: *n });
         }
         // samples: a few explored histories written out (first leaf of depth n via scripted walk)
         let mut samples = vec![];
